@@ -652,13 +652,13 @@ func (e *Engine) chanRecv(st *State, f *Frame, x *ssa.UnOp, c ChanV, commaOk boo
 func (e *Engine) suspendRecv(st *State, ch int, x ssa.Value, commaOk bool, et types.Type) bool {
 	if len(st.resume) == 0 && !e.hasRunnable(st) {
 		// nothing runnable: start the oldest goroutine that was spawned but never started, if any
-		t := &Thread{frames: st.frames, waitCh: ch, recv: x, commaOk: commaOk, elemT: et}
+		t := &Thread{frames: st.frames, waitCh: ch, recv: x, commaOk: commaOk, elemT: et, id: st.curTID}
 		if !e.autoStart(st, func() { st.threads = append(st.threads, t); st.frames = nil }) {
 			return false // nobody else could ever send: a genuine block
 		}
 		return true
 	}
-	t := &Thread{frames: st.frames, waitCh: ch, recv: x, commaOk: commaOk, elemT: et}
+	t := &Thread{frames: st.frames, waitCh: ch, recv: x, commaOk: commaOk, elemT: et, id: st.curTID}
 	st.threads = append(st.threads, t)
 	st.frames = nil
 	return true
@@ -701,6 +701,7 @@ func (e *Engine) switchThread(st *State) bool {
 		if t.waitCh == 0 && !t.done {
 			st.threads = append(append([]*Thread(nil), st.threads[:i]...), st.threads[i+1:]...)
 			st.frames = t.frames
+			st.curTID = t.id
 			return true
 		}
 	}
@@ -708,6 +709,7 @@ func (e *Engine) switchThread(st *State) bool {
 		t := st.resume[n-1]
 		st.resume = st.resume[:n-1]
 		st.frames = t.frames
+		st.curTID = t.id
 		return true
 	}
 	// somebody is still blocked and there are goroutines that never ran: let the next one run
@@ -753,7 +755,7 @@ func (e *Engine) wakeReceiver(st *State, ch int, v Value, ok bool) bool {
 
 // startThread runs a recorded spawn as a new thread; the current thread resumes when it yields.
 func (e *Engine) startThread(st *State, f *Frame, in ssa.Instruction, sp spawn) {
-	parent := &Thread{frames: st.frames}
+	parent := &Thread{frames: st.frames, id: st.curTID}
 	st.resume = append(st.resume, parent)
 	st.frames = nil
 	// invoke needs a frame context only for diagnostics; build the call on an empty stack
@@ -786,6 +788,8 @@ func (e *Engine) invokeRoot(st *State, f *Frame, in ssa.Instruction, sp spawn) {
 		panic(hardErr("go of external function " + callee.String()))
 	}
 	e.sawFunc(callee.String())
+	st.nextTID++
+	st.curTID = st.nextTID // a new goroutine
 	e.pushFrame(st, callee, args, bind, nil)
 }
 
@@ -859,7 +863,7 @@ func (e *Engine) selectOp(st *State, f *Frame, x *ssa.Select) {
 				}
 			}
 			f.ip-- // retry the select on resume
-			st.threads = append(st.threads, &Thread{frames: st.frames, waitCh: -1, waitSet: set})
+			st.threads = append(st.threads, &Thread{frames: st.frames, waitCh: -1, waitSet: set, id: st.curTID})
 			st.frames = nil
 			return
 		}
